@@ -125,14 +125,23 @@ def plot_matrix_data(self, xind, yind):
 '''
 
 
+def mask_index(t):
+    """pandas: X.index[m] == X[m].index for a boolean mask m derived from X (masking keeps the order of the kept labels)."""
+    if head(t) == "sub":
+        base, m = strip(t[1]), strip(t[2])
+        if head(base) == "attr" and base[2] == "index" and head(m) == "cmp" and strip(m[2]) == strip(base[1]):
+            return ("attr", ("sub", base[1], t[2]), "index")
+    return t
+
+
 def run(r):
     rep = r.rep
     rep.explanation = "The data arguments that each summary / plotting function passes on were extracted from the current source and compared with the specification."
-    rep.trust("logomaker.alignment_to_matrix(seqs): rows = positions, columns = residues, entries = counts", "numpy.unique(a, axis=0, return_counts=True) -> (distinct rows, multiplicities)",
+    rep.trust("pandas: Series.index[mask] == Series[mask].index for a boolean mask of the same series", "logomaker.alignment_to_matrix(seqs): rows = positions, columns = residues, entries = counts", "numpy.unique(a, axis=0, return_counts=True) -> (distinct rows, multiplicities)",
               "seaborn ClusterGrid.plot calls plot_matrix(colorbar_kws, xind, yind) with the dendrogram leaf orders")
     # purity first: cheap, robust, and a recorded violation takes precedence over a later 'cannot decide'
     check_pure_params(r, "C19-PURE", [U + "seqs_to_regex", U + "seqs_to_consensus", PL + "rankfrequency", PL + "labels_to_colors_hls", PL + "labels_to_colors_tableau", PL + "density_scatter", PL + "seqlogos", PL + "similarity_clustermap"])
-    eq = Equiv(rewrites=std_rewrites(ident=("numpy.asarray",)) + [canon_binders], modelled={"logomaker.alignment_to_matrix", "numpy.sort", "numpy.arange", "numpy.isnan", "numpy.unique", "seaborn.hls_palette",
+    eq = Equiv(rewrites=std_rewrites(ident=("numpy.asarray",)) + [canon_binders, mask_index], modelled={"logomaker.alignment_to_matrix", "numpy.sort", "numpy.arange", "numpy.isnan", "numpy.unique", "seaborn.hls_palette",
                                                                                             "matplotlib.pyplot.cycler", "matplotlib.pyplot.gca", "numpy.random.shuffle", "builtins.zip", "builtins.dict"})
     # structural core, independent of how missing values are dropped: the ranks 0..size-1 and the cumulative norm are taken from the very
     # array whose reversed values are drawn
@@ -144,6 +153,8 @@ def run(r):
         xs, ys = strip_all(step[2][0]), strip_all(step[2][1])
         rev = [x for x in walk(xs) if head(x) == "sub" and x[2] == ("slice", NONE, NONE, const(-1))]
         sizes = {x[1] for x in walk(ys) if head(x) == "attr" and x[2] == "size"} | {x[2][0] for x in walk(ys) if head(x) == "call" and x[1] == ("glob", "builtins.len") and len(x[2]) == 1}
+        # the size of a reversed array is the size of the array
+        sizes = {(z[1] if head(z) == "sub" and z[2] == ("slice", NONE, NONE, const(-1)) else z) for z in sizes}
         drawn = {x[1] for x in rev}
         okr = len(drawn) == 1 and sizes == drawn
         found = f"drawn: {[show(d, 50) for d in drawn]}; sizes taken from: {[show(z, 50) for z in sizes]}"
